@@ -152,12 +152,30 @@ theorem memset_footprint (ct : CT) (dst : Buf) (d : Nat) (ch : Int) (n : Nat) (h
   simp only [Spec.memset]
   rw [splice_exact _ _ (by simp [hl])]
 
+/-- `memmove` inside one allocation: on the window that holds just the two extents (from the lower of the two
+    pointers to the end of the higher extent) the call succeeds and leaves in it what ISO C prescribes for the
+    original allocation -/
+theorem memmove_footprint (b : Buf) (d s n : Nat) (hs : s + n ≤ b.length) (hd : d + n ≤ b.length) :
+    memmove (Spec.exactArr b (min d s) (max d s + n - min d s)) (d - min d s) (s - min d s) n =
+      .ok (d - min d s, Spec.exactArr (Spec.memmove b d s n) (min d s) (max d s + n - min d s)) := by
+  generalize hm : min d s = m
+  generalize hk : max d s + n - m = k
+  have hl : (Spec.exactArr b m k).length = k := length_exactArr (by omega)
+  rw [memmove_eq _ _ _ n (by rw [hl]; omega) (by rw [hl]; omega)]
+  unfold Spec.memmove Spec.exactArr
+  have h1 : m + (s - m) = s := by omega
+  have h2 : min n (k - (s - m)) = n := by omega
+  have e : (((b.drop m).take k).drop (s - m)).take n = (b.drop s).take n := by
+    rw [List.drop_take, List.drop_drop, List.take_take, h1, h2]
+  rw [e, splice_window b m k d _ (by omega) (by simp; omega) (by omega)]
+
 /-! ## non-vacuity (tests on samples) -/
 
 example : Spec.exactStr [98, 97, 98, 0, 7, 7] 1 = [97, 98, 0] ∧ Spec.exactN [97, 98, 99, 0] 0 2 = [97, 98] ∧
     Spec.exactN [97, 0, 99, 0] 0 3 = [97, 0] ∧ Spec.exactArr [1, 2, 3, 4, 5] 1 3 = [2, 3, 4] := by decide
 example : strrchr CT.char [97, 98, 97, 0] 0 97 = .ok (some 2) :=
   strrchr_footprint CT.char [7, 97, 98, 97, 0, 7] 1 97 (by decide)
+example : memmove [2, 3, 4, 5] 1 0 3 = .ok (1, [2, 2, 3, 4]) := memmove_footprint [1, 2, 3, 4, 5, 6] 2 1 3 (by decide) (by decide)
 example : strcat [97, 0, 239] 0 [98, 0] 0 = .ok (0, [97, 98, 0]) :=
   strcat_footprint [238, 97, 0, 239, 238] 1 [98, 0] 0 (by decide) (by decide) (by decide)
 
